@@ -249,6 +249,11 @@ def run(ctx):
         # every fourth on a log of several hundred KB: with GOGC=1 the runtime collects (and runs finalizers) inside the lock section
         explore2.explore(ctx, "C02", r.fork(), kindsA=(a_kinds[i % len(a_kinds)],), kindsB=("new", "set", "reopen", "claim_oldest", "set+state"),
                          max_points=(5 if ctx.quick else 40), big=(400 if i % 4 == 1 else 0))
+    # any writer against the two commands that replace the log file, on a store whose log still has the legacy name: the name a writer
+    # resolved before it got the lock must still be the log when it writes
+    for i in range(4 if ctx.quick else 80):
+        explore2.explore(ctx, "C02", r.fork(), kindsA=(["new", "set+state", "claim_oldest", "sequence", "plan", "compact", "prune", "claim_id"][i % 8],), kindsB=("compact", "plan"),
+                         max_points=(5 if ctx.quick else 40), legacy=True, b_modes=("complete",))
     ctx.cov["rule"] = ("system-call programs of every writer kind (one exclusive non-blocking flock; the log read after it and before the single write / tmp+rename; unlock last); pairs of "
                        "generated commands A ∥ B with A parked (strace SIGSTOP) at first/middle/last (thorough: every) point while holding the lock: B must fail fast with lock busy and write nothing, "
                        "A's outcome must equal A alone; 2–5 commands started together: whole JSON lines, no interleaving, and the final state equals the acknowledged commands run one at "
